@@ -595,3 +595,32 @@ vk_harness!(c03_number_scanner_returns_5, {
 vk_harness!(c02_literal_typing_5, {
     number_typing(5);
 });
+
+//@ prop: C16
+//@ tier: quick
+//@ unwind: 12
+//@ caps: VEC=10
+//@ encodes: BasicLexer::collapse_triples; BasicLexer::collapse_doubles (several spaced operators in one line: every recorded position must be replaced)
+//@ bounds: the token line  1 < _ = 2 > _ = 3  (operator kinds concrete, both blank counts symbolic >= 1)
+vk_harness!(c16_two_spaced_operators_in_one_line, {
+    let (b1, b2) = (vk::any_usize(), vk::any_usize());
+    vk::assume(b1 >= 1 && b2 >= 1);
+    let mut tokens: Vec<Token> = Vec::new();
+    tokens.push(Token::Literal(Literal::Integer("1".into())));
+    tokens.push(Token::Operator(Operator::Less));
+    tokens.push(Token::Whitespace(b1));
+    tokens.push(Token::Operator(Operator::Equal));
+    tokens.push(Token::Literal(Literal::Integer("2".into())));
+    tokens.push(Token::Operator(Operator::Greater));
+    tokens.push(Token::Whitespace(b2));
+    tokens.push(Token::Operator(Operator::Equal));
+    tokens.push(Token::Literal(Literal::Integer("3".into())));
+    BasicLexer::collapse_triples(&mut tokens);
+    BasicLexer::collapse_doubles(&mut tokens);
+    vk_check!(tokens.len() == 5, "C16: both spaced operators of the line are merged, nothing else is touched");
+    vk_check!(matches!(tokens.get(1), Some(Token::Operator(Operator::LessEqual))), "C16: < = is <= wherever it stands in the line");
+    vk_check!(matches!(tokens.get(3), Some(Token::Operator(Operator::GreaterEqual))), "C16: > = is >= wherever it stands in the line");
+    vk_check!(matches!(tokens.get(2), Some(Token::Literal(_))) && matches!(tokens.get(4), Some(Token::Literal(_))), "C16: the operands stay where they were");
+    vk_cover!(true, "reach: two spaced operators");
+    core::mem::forget(tokens);
+});
